@@ -28,6 +28,14 @@ def main(argv=None):
         f = rep["failures"][0]
         ck.fail("buffers.OverflowableBuffer/bounded:fifo-histories", "history:" + repr(f)[:80], "bounded stand-in: real buffer deviates from a FIFO byte queue: %s" % f["problem"],
                 replay={"history": f, "label": "bounded"}, reproduced=True)
+    # request targets through the real parser + get_environment against an independent RFC 3986 split (bounded: a fixed table)
+    rept = ck.native("targets", {}, timeout=300)
+    ck.bounded.append({"label": "bounded", "what": "PATH_INFO / QUERY_STRING of 26 request targets (params, repeated '?', fragments, percent-escapes, '//' form, absolute form) "
+                       "equal an independent RFC 3986 split with the path percent-decoded", "bound": "fixed table in replay/C07_replay.py",
+                       "evaluations": rept.get("total", 0), "failures": rept.get("failures", rept)})
+    for f in (rept.get("failures") or [])[:2]:
+        ck.fail("task.WSGITask.get_environment/bounded:targets", "target:" + f["target"], "bounded stand-in: request target %r gives %s, expected %s" % (f["target"], f.get("got", f.get("problem")), f.get("expected")),
+                replay={"case": f, "label": "bounded"}, reproduced=True)
     ck.trusted.extend(["dict model with symbolic keys: membership of a symbolic key agrees with every known entry; a write under a symbolic key can only hit an entry it can equal",
                        "hooks state the fold clauses at the store itself (names with '_' never stored, CGI key without '-', repeated fields appended after ', ')",
                        "urlsplit / unquote_to_bytes component semantics (request.path is taken as the percent-decoded path)", "pyvc, cvc5/z3"])
